@@ -15,7 +15,7 @@
    geometry cell meets which event; a disagreement with the pairing the
    harness took from scipp shows up as an undefined value. *)
 From Coq Require Import List Arith Bool String ZArith Uint63.
-From Verif.C06 Require Import Model.
+From Verif.C06 Require Import Model ModelH.
 Import ListNotations.
 Open Scope string_scope.
 
@@ -66,7 +66,9 @@ Record program := mkP {
   p_ecell : list int;          (* per edge element, scipp's dense broadcast of the cell number (c+1) *)
   p_eout : list (list fb);     (* converted edges *)
   p_edense : list (list fb);   (* dense kernel on (edge, cell) *)
-  p_flags : list string        (* harness-side sc.identical checks that failed *)
+  p_flags : list string;       (* harness-side sc.identical checks that failed *)
+  p_prev : list (list fb)      (* call histories: channels of an event coordinate named like the target that the
+                                  INPUT of the observed call already carries, per input buffer index ([] = none) *)
 }.
 Record c06case := mkC { c_l : layout; c_ps : list program }.
 
@@ -131,6 +133,44 @@ Definition check_bin (mi : list (event (option (option (list fb))) fb)) (oi : li
        then "value"
   else "".
 
+(* call histories (ModelH.v): the input's events carry NAMED coordinates — "o" (the origin, instantiated as in
+   [input_of] by the table of dense evaluations) and, when the input is the result of an earlier conversion or
+   was loaded with a precomputed coordinate, "t" (the value already stored under the target's name).  The
+   model's re-conversion [convert_named] then says what every event must carry under "t" afterwards. *)
+Open Scope string_scope.
+Definition knamed (c : dcoord) (g : nat) : dcoord :=
+  match ktab c g with
+  | Some v => (fst (fst c), 0, v)
+  | None => (fst (fst c), 0, [NoV])       (* operand pairing differs from the model's: equal to no value *)
+  end.
+
+Definition input_named (l : layout) (dense prev : list (list fb)) : binned (named dcoord) fb nat :=
+  let nb := n_ (l_nbuf l) in
+  let os := zip3 (seq 0 nb) (map n_ (l_cell l)) (rows dense nb) in
+  let ts := zip3 (seq 0 nb) (repeat 0 nb) (rows prev nb) in
+  mkB (zip_events (map (fun ot => [("o", fst ot); ("t", snd ot)]) (combine os ts)) (l_w l) (l_v l))
+      (map n_ (l_begin l)) (map n_ (l_end l)) (seq 0 (n_ (l_ncells l))) (to_grid (l_grid l)).
+
+Definition check_prev (l : layout) (p : program) : string :=
+  match p_prev p with
+  | [] => ""
+  | prev =>
+    let nb := n_ (l_nbuf l) in
+    if negb (forallb (fun ch => Nat.eqb (List.length ch) nb) prev
+             && Nat.eqb (List.length prev) (List.length (p_oval p))) then "harness-shape-prev"
+    else
+      let b := input_named l (p_dense p) prev in
+      let m := convert_named knamed "o" "t" b in
+      let o := output_of l p in
+      first_fail (map (fun i =>
+                         if list_eqb (fun me oe => match lookup "t" (coord me) with
+                                                   | Some c => fbs_eqb (snd c) (snd (coord oe))
+                                                   | None => false
+                                                   end) (bin_events m i) (bin_events o i)
+                         then "" else "existing-coordinate-not-kept")
+                      (seq 0 (nbins b)))
+  end.
+
 Definition check_program (l : layout) (p : program) : string :=
   let nb := n_ (l_nbuf l) in
   let b := input_of l (p_dense p) in
@@ -151,6 +191,9 @@ Definition check_program (l : layout) (p : program) : string :=
                          (seq 0 (nbins b)) in
       let rb := first_fail per_bin in
       if negb (String.eqb rb "") then rb
+      else
+      let rp := check_prev l p in
+      if negb (String.eqb rp "") then rp
       else
         let ne := List.length (p_ecell p) in
         if negb (nats_eqb (map (fun t => S (gidx (to_grid (p_egrid p)) t)) (seq 0 ne)) (map n_ (p_ecell p)))
